@@ -317,7 +317,9 @@ def oracle_case(c):
     fam, mode = c['family'], c['mode']
     slots = np.array(c['slots']); n = c['n']
     table = par_table(fam, n, pyrandom.Random(c['tabseed'])) if mode != 'scalar' else None
-    if mode == 'tp_callable' and fam == 'bernoulli': table = np.clip(table, 0.01, 0.9)
+    if mode == 'tp_callable' and fam == 'bernoulli':
+        table = np.clip(table, 0.01, 0.9)
+        if n >= 4: table[0] = 0.0; table[1] = 1.0       # agents that are certainly out / certainly in, next to the others
     allu = list(range(n))
     def draw(req, hist, slots_=slots):
         d = make(fam, mode, slots_, c['trace'], c['seed'], table, req)
@@ -489,6 +491,9 @@ def gen_extension_cfg(rng):
                diseases=[dict(type=rng.choice(['sir', 'sis']), beta=rng.choice([0.3, 0.8]), init_prev=rng.choice([0.05, 0.2]), dur_inf=rng.choice([2, 5]))],
                networks=[dict(type='erdosrenyi', p=rng.choice([0.05, 0.1]))] if net == 'erdosrenyi' else [dict(type='disk', r=0.2, v=0.1)],
                demographics=[])
+    if net == 'erdosrenyi' and rng.random() < 0.6:
+        # edges that persist for a duration drawn per source agent (a slot-keyed draw, with repeated sources in one request)
+        cfg['networks'][0]['dur'] = rng.choice([dict(dist='uniform', pars=dict(low=0.0, high=4.0)), dict(dist='poisson', pars=dict(lam=2.0)), 2])
     if cfg['diseases'][0]['type'] == 'sir': cfg['diseases'][0]['p_death'] = 0
     return cfg
 
@@ -505,8 +510,13 @@ def search(ctx):
         ctx.count('oracle_cases')
         if f:
             ctx.fail(f['signature'], f['what'], dict(kind='case', case=c))
-    for _ in range(ctx.budget(3, 25)):
+    fixed_durs = [dict(dist='uniform', pars=dict(low=0.0, high=4.0)), dict(dist='poisson', pars=dict(lam=2.0))]
+    for i in range(ctx.budget(3, 25) + len(fixed_durs)):
         cfg = gen_extension_cfg(ctx.rng)
+        if i < len(fixed_durs):
+            # always exercised: an Erdos-Renyi network whose edges persist for a duration drawn per source agent
+            cfg['networks'] = [dict(type='erdosrenyi', p=0.08, dur=fixed_durs[i])]; cfg['n_agents'] = 60; cfg['dur'] = 10
+            cfg['diseases'] = [dict(type='sir', beta=0.5, init_prev=0.1, dur_inf=4, p_death=0)]
         f = oracle_extension(cfg)
         ctx.count('extension_runs')
         if f:
